@@ -18,7 +18,11 @@ func zzH18seq() {
 	now := zzNondetInstant("now", false)
 	m := &Monitor{cctx: zzNewContext(rec, st), iface: "eth1", now: func() time.Time { return now }}
 	zoned := zzNondetChoice("zoned", 2) == 1
-	src := netip.MustParseAddr("fe80::1")
+	// link-local, global and unique-local senders (the socket layer attaches
+	// the interface zone to every sender)
+	hosts := []string{"fe80::1", "2001:db8::1", "fd00::2"}
+	host := hosts[zzNondetChoice("sender", 3)]
+	src := netip.MustParseAddr(host)
 	if zoned {
 		src = src.WithZone("eth1")
 	}
@@ -53,7 +57,6 @@ func zzH18seq() {
 	zzWaitIdle()
 	zzAssert(!returned, "monitor-never-fails-on-valid-messages")
 	zzAssert(seen == 2, "both-messages-handled")
-	const host = "fe80::1"
 	zzAssert(rec.count("mon_received") == 2, "each-message-counted-once")
 	types := []string{"router advertisement", "router solicitation", "neighbor advertisement"}
 	if secondKind == 0 {
